@@ -149,7 +149,7 @@ def gen_spec(rng, wild=False, max_tables=5, allow_props=None, refs_wild_comment=
         idx = [gen_index(rng, wild, len(cols)) for _ in range(rng.choice([0, 0, 1, 2, 3]))]
         alias = None
         if rng.random() < 0.25:
-            alias = gen_name(rng, False, None, ['u', 'o', 'it', 'c', 'm'])
+            alias = gen_name(rng, False, None, ['u', 'o', 'it', 'c', 'm']) if rng.random() < 0.8 else name   # sometimes its own bare name
             if alias in used_alias or any(alias == f'{s}.{n}' for s, n in used_t):
                 alias = None
             else:
